@@ -17,6 +17,7 @@ import RotoV.Model.TcRules
 import RotoV.Model.Unify
 import RotoV.Lemmas.TcRules
 import RotoV.Lemmas.Unify
+import RotoV.Lemmas.TypingMono
 
 namespace RotoV.C07
 open RotoV.Typing RotoV.TcRules
@@ -79,6 +80,58 @@ example : assignAccepts false .local = true := by decide
     `const A: i32 = 5; fn main() -> i32 { A = 6; A }` compiled. -/
 theorem assign_without_test_accepts_constant :
     assignAcceptsWith false .constant = true ∧ assignAcceptsWith false .context = true := by decide
+
+/-! ## T3 (oracle side) — the declarative checker only rejects what has no typing
+
+  FULL STATEMENT (DESIGN §4 C07 T3 `infer_sound`): acceptance by
+  `TypeChecker::expr` implies a declarative typing. NOT proved (there is no
+  Lean model of the inference algorithm as a whole).
+  What is proved instead concerns the ORACLE that decides which mutants count:
+  on the core fragment (literals, variables, unary and binary operators,
+  if/else, blocks with `let` and expression statements) the flexible types of
+  `D` never cause a rejection: if SOME way of filling in the omitted literal
+  suffixes and `let` annotations (`fillsE e e'`) gives a script that the plain
+  ground reading of the rules accepts, then `D` accepts the script as written.
+  Contrapositive: a script `D` rejects has no well-typed completion — it is
+  ill-typed whatever inference picks. Outside the fragment (`match`, loops,
+  calls, records, `?`, `return`, …) this is argued in the comments of
+  Model/Typing.lean and tested (every generated well-typed original must be
+  accepted by `D`: 0 slips in 400 000), not proved. -/
+
+/-- **`declarative_checker_monotone_partial`** (expressions). -/
+theorem declarative_checker_monotone_partial (env : Env) (ctx : Ctx) (e e' : Expr) (g g' : Gamma)
+    (tg : Ty) (d' : Bool) (hf : fillsE e e' = true) (hg : gammaInst g g' = true)
+    (h : synth env ctx g' e' = .ok (tg, d')) :
+    ∃ tf, synth env ctx g e = .ok (tf, false) ∧ inst tf tg = true ∧ ground tg = true :=
+  (monoE env ctx e e' g g' tg d' hf hg h).2
+
+/-- … hence what `D` rejects has no well-typed completion -/
+theorem declarative_rejection_sound_partial (env : Env) (ctx : Ctx) (e e' : Expr) (g g' : Gamma)
+    (hf : fillsE e e' = true) (hg : gammaInst g g' = true)
+    (hrej : ∀ t d, synth env ctx g e ≠ .ok (t, d)) :
+    ∀ t d, synth env ctx g' e' ≠ .ok (t, d) := by
+  intro t d h
+  obtain ⟨tf, h1, _, _⟩ := declarative_checker_monotone_partial env ctx e e' g g' t d hf hg h
+  exact hrej tf false h1
+
+/-- the same for a whole function item: if the completion of the body passes,
+    the function as written passes -/
+theorem declarative_fn_monotone_partial (env : Env) (p : Prog) (n : Nat) (params : List (Nat × Ty))
+    (rt : Ty) (body body' : Block) (hf : fillsB body body' = true)
+    (h : checkDecl env p (.fn n params rt body') = .ok ()) :
+    checkDecl env p (.fn n params rt body) = .ok () :=
+  checkDecl_fn_mono env p n params rt body body' hf h
+
+/-- non-vacuity: `let x = 5; x + 1u8` is accepted through its completion
+    `let x: u8 = 5u8; x + 1u8`, and `5 + true` is rejected -/
+example :
+    fillsB (.mk [.let_ 0 none (.intLit none)] (some (.bin .add (.var 0) (.intLit (some .u8)))))
+      (.mk [.let_ 0 (some (.int .u8)) (.intLit (some .u8))] (some (.bin .add (.var 0) (.intLit (some .u8))))) = true ∧
+    (match synthBlock ⟨[], [], []⟩ ⟨none⟩ [[]]
+        (.mk [.let_ 0 none (.intLit none)] (some (.bin .add (.var 0) (.intLit (some .u8))))) with
+      | .ok (.int .u8, false) => true | _ => false) = true ∧
+    (match synth ⟨[], [], []⟩ ⟨none⟩ [[]] (.bin .add (.intLit none) .boolLit) with
+      | .error _ => true | _ => false) = true := by decide +kernel
 
 /-! ## T2 — unification
 
